@@ -375,7 +375,12 @@ func c17Schedules(rep *report.Report, bound int, thorough bool) {
 			listeners int64
 			begin     [4]string // what each transaction saw when it began (state key for pruning)
 		}
-		ex := &vsched.Explorer{Bound: bound, MaxSteps: 6000, MaxExecs: c17MaxExecs(thorough)}
+		vbound := bound
+		if !thorough && (v.snapshot || v.rootUser) {
+			vbound = 1 // quick: the four-thread variants at one preemption (enough for the recursive read-lock deadlock)
+		}
+		rep.Set("preemption_bound["+v.name+"]", vbound)
+		ex := &vsched.Explorer{Bound: vbound, MaxSteps: 6000, MaxExecs: c17MaxExecs(thorough)}
 		ex.KeyFn = func() string {
 			return strings.Join(cur.begin[:], "|") + "#" + cur.tuple + "#" + strings.Join(cur.errs, ";") + fmt.Sprint(cur.listeners)
 		}
